@@ -75,9 +75,9 @@ package keystore
 //@   ensures type-length-data-read-back: err == nil ==> result0 != nil && result0.acctType == serializedAccount[0] && len(result0.rawData) == le32(serializedAccount[1:5]) && (forall j int :: 0 <= j && j < len(result0.rawData) ==> result0.rawData[j] == serializedAccount[5 + j])
 
 //@ func fetchEncryptedPubKey
-//@   assert-at call Uint32#1 branch-from-the-first-four-key-bytes: arg1 == lastresult("GetByPrefix", 0)[#rangeindex + 1].Key[0:4]
-//@   assert-at call Uint32#2 index-from-the-next-four-key-bytes: arg1 == lastresult("GetByPrefix", 0)[#rangeindex + 1].Key[4:8]
-//@   loop * invariant one-record-per-entry: -1 <= #rangeindex && #rangeindex < len(entries) && len(pks) == #rangeindex + 1
+//@   assert-at call Uint32#1 branch-from-the-first-four-key-bytes: arg1 == lastresult("GetByPrefix", 0)[#iter].Key[0:4]
+//@   assert-at call Uint32#2 index-from-the-next-four-key-bytes: arg1 == lastresult("GetByPrefix", 0)[#iter].Key[4:8]
+//@   loop * invariant one-record-per-entry: 0 <= #iter && #iter <= len(entries) && len(pks) == #iter
 
 //@ func serializeHDAccountKey
 //@   requires len(encryptedPubKey) < 2147483648 && len(encryptedPrivKey) < 2147483648
